@@ -13,7 +13,7 @@ LEVEL = "exploration"
 ASSUMPTIONS = [
     "for every family, every applicable skglm route (solver x strategy, and the estimator) and an independent reference "
     "(scikit-learn Lasso / ElasticNet / MultiTaskLasso / LogisticRegression(liblinear) / LinearSVC(hinge), celer GroupLasso, scipy HiGHS "
-    "linear programme for quantile regression) solve the same documented objective (mc/ref)",
+    "linear programme for quantile regression, scaled-Lasso alternation over scikit-learn Lasso for the square-root Lasso) solve the same documented objective (mc/ref)",
     "oracle = theorems of convexity: (a) the recomputed violation nu of a route that claims convergence is <= c_s * tol with c_s = 1 for "
     "the C01 solvers, 10 for FISTA (its stopping value uses the gradient at the previous extrapolated point), (b) F(w) - F(v) <= "
     "nu * ||w - v||_1 for the reference solution v and every other route's solution, (c) coefficients agree when the problem is "
